@@ -11,14 +11,31 @@ use std::io::Write;
 
 pub const KINDS: &[&str] = &["c18", "c18dump"];
 
-fn one_load(lines: &[String], n: u32, reqs: &[(Vec<i32>, usize, u64)]) -> String {
+/// `worker`: which requests of OTHER clients this instance (= one stream worker's clone) served
+/// before each seeded request: 0 none, 1 a request that is refused (assumptions contradicting a
+/// core literal, or contradictory), 2 a marking inspection.  With `stream -j N` the thread timing
+/// decides which worker's clone answers a line, so the seeded answers must not depend on it.
+fn one_load(lines: &[String], n: u32, reqs: &[(Vec<i32>, usize, u64)], worker: usize) -> String {
     let mut s = String::new();
     match load(lines, Some(n)) {
         Err(e) => writeln!(s, "panic {}", e).unwrap(),
         Ok(mut d) => {
             let dump = dump_circuit(&d).replace('\n', " / ");
             writeln!(s, "dump {}", dump).unwrap();
+            let refused: Vec<i32> = match d.core.iter().copied().min() {
+                Some(c) => vec![-c],
+                None => vec![1, -1],
+            };
             for (a, k, seed) in reqs {
+                match worker {
+                    1 => {
+                        let _ = guarded(|| d.uniform_random_sampling(&refused, 3, 1));
+                    }
+                    2 => {
+                        let _ = guarded(|| d.get_marked_nodes_clone(&[1]));
+                    }
+                    _ => {}
+                }
                 match guarded(|| d.uniform_random_sampling(a, *k, *seed)) {
                     Ok(Some(l)) => writeln!(s, "smp {}", fmt_cfgs(&l)).unwrap(),
                     Ok(None) => writeln!(s, "smp none").unwrap(),
@@ -41,7 +58,7 @@ pub fn run(kind: &str, ctx: &Ctx, out: &mut dyn Write) {
         let n: u32 = it.next().unwrap().trim().parse().unwrap();
         let lines: Vec<String> = it.map(|l| l.to_string()).collect();
         let reqs = vec![(vec![], 5usize, 42u64), (vec![], 20, 7)];
-        out.write_all(one_load(&lines, n, &reqs).as_bytes()).unwrap();
+        out.write_all(one_load(&lines, n, &reqs, 0).as_bytes()).unwrap();
         return;
     }
     let srcs = sources(ctx, &mut rng);
@@ -69,7 +86,7 @@ pub fn run(kind: &str, ctx: &Ctx, out: &mut dyn Write) {
         }
         for r in 0..reloads {
             writeln!(s, "reload {}", r).unwrap();
-            s.push_str(&one_load(&inp.lines, inp.n, &reqs));
+            s.push_str(&one_load(&inp.lines, inp.n, &reqs, r % 3));
         }
         // separate processes (every process has its own hash seeds and address layout)
         if !quick || k % 10 == 0 {
